@@ -133,6 +133,7 @@ def handleE (j : Json) : Except String Json := do
   let I ← parseInst (← fld j "inst")
   let fixed : List (String × Json) :=
     [("nomodel", Json.bool I.noModel), ("wf", Json.bool I.wf),
+     ("acyclic", Json.bool (TetriSpec.wfAcyclic I)),
      ("decode_fail", jList (jDecision I) (decodeFail I)),
      ("decode_nomodel", jList (jDecision I) (decodeNoModel I))]
   if I.noModel then return Json.mkObj fixed
